@@ -1,11 +1,10 @@
 (* C03: refutation witnesses of the Legacy model and the definitional glue lemmas
    (hom_deg selection, trailing infinite bar, empty diagram). *)
 From Coq Require Import QArith Qminmax Lqa List Bool Arith Lia.
-From Persim Require Import Lib.Kth Lib.PL Model.SweepM.
+From Persim Require Import Lib.Kth Lib.PL Spec.LandscapeS Model.SweepM.
 Import ListNotations.
 Open Scope Q_scope.
 
-Definition positive_bars (bars : list bar) : Prop := forall a, In a bars -> fst a < snd a.
 Fixpoint no_repeats (bars : list bar) : bool :=
   match bars with [] => true | a :: r => negb (existsb (bar_eqb a) r) && no_repeats r end.
 
@@ -71,3 +70,8 @@ Lemma glue_finite s g dg bars : finite_bars dg = Some bars -> dg <> [] ->
   exact_landscape s g [dg] 0 = run_sweep s bars.
 Proof. intros H N. unfold exact_landscape. simpl nth_error. destruct dg as [|a r]. contradiction.
   rewrite (strip_finite _ _ H), H. reflexivity. Qed.
+
+Lemma glue_trailing_both s g dg bars b : finite_bars dg = Some bars ->
+  exact_landscape s g [dg ++ [(b, None)]] 0 = run_sweep s bars /\
+  (dg <> [] -> exact_landscape s g [dg] 0 = run_sweep s bars).
+Proof. intros. split. apply glue_trailing_inf; assumption. apply glue_finite; assumption. Qed.
